@@ -65,6 +65,34 @@ theorem searchInv_exit {α : Type} (p : Option α → Bool) (L : List (Option α
   · simp only at h ⊢
     simp [h]
 
+/-- the same search written as `for … : if hit: found = …; break`: state = (broke out, hit so far) -/
+theorem forLoop_first_hit {α : Type} (p : Option α → Bool) (B : Bool × Option α → Option α → Bool × Option α)
+    (hstop : ∀ k a, B (true, k) a = (true, k))
+    (hB : ∀ k a, B (false, k) a = if p a then (true, a) else (false, k)) :
+    ∀ (L : List (Option α)) (k : Option α), (MenpoModel.Py.forLoop (false, k) L B).2 = (L.find? p).getD k := by
+  have hstuck : ∀ (L : List (Option α)) k, MenpoModel.Py.forLoop (true, k) L B = (true, k) := by
+    intro L
+    induction L with
+    | nil => intro k; rfl
+    | cons a t ih => intro k; rw [MenpoModel.Py.forLoop_cons, hstop, ih]
+  intro L
+  induction L with
+  | nil => intro k; rfl
+  | cons a t ih =>
+    intro k
+    rw [MenpoModel.Py.forLoop_cons, hB, List.find?_cons]
+    cases hp : p a with
+    | true => simp only [↓reduceIte, Option.getD_some]; rw [hstuck]
+    | false => simp only [Bool.false_eq_true, ↓reduceIte]; exact ih k
+
+theorem forLoop_first_hit_of {α : Type} (p : Option α → Bool) (B : Bool × Option α → Option α → Bool × Option α)
+    (L : List (Option α)) (k : Option α) (res : Bool × Option α)
+    (h : MenpoModel.Py.forLoop (false, k) L B = res)
+    (hstop : ∀ k a, B (true, k) a = (true, k))
+    (hB : ∀ k a, B (false, k) a = if p a then (true, a) else (false, k)) :
+    res.2 = (L.find? p).getD k := by
+  rw [← h]; exact forLoop_first_hit p B hstop hB L k
+
 def LookupInv {α β : Type} (f : α → Option β) (L : List α) (s : Option β × List α) : Prop :=
   (s.1 = none ∧ L.findSome? f = s.2.findSome? f) ∨ (s.1 ≠ none ∧ L.findSome? f = s.1)
 
@@ -95,6 +123,27 @@ theorem strLast3_beq (x : OStr) : (strLast3 x == ostr ".gz") = strEndsGz x := by
     simp only [strLast3, ostr, strEndsGz, endsGz, Option.map_some]
     rw [Bool.eq_iff_iff]
     simp
+
+theorem strEndsWith_gz (x : OStr) : strEndsWith x (ostr ".gz") = strEndsGz x := by
+  cases x with
+  | none => rfl
+  | some e =>
+    simp only [strEndsWith, ostr, strEndsGz, endsGz]
+    have h3 : ".gz".toList.length = 3 := rfl
+    rw [h3]
+    by_cases hl : 3 ≤ e.length
+    · simp [hl]
+    · have hne : (List.drop (e.length - 3) e == ['.', 'g', 'z']) = false := by
+        have : e.length - 3 = 0 := by omega
+        rw [this, List.drop_zero]
+        cases h : e == ['.', 'g', 'z'] with
+        | false => rfl
+        | true =>
+          have := congrArg List.length (eq_of_beq h)
+          simp at this
+          omega
+      simp only [hl, decide_false, Bool.false_and]
+      exact hne.symm
 
 theorem strLast3_bne (x : OStr) : (strLast3 x != ostr ".gz") = !strEndsGz x := by
   rw [bne, strLast3_beq]
